@@ -32,6 +32,8 @@ type APart struct {
 	Ord  int    `json:"ord"`
 	Fail bool   `json:"fail"`
 	Doc  string `json:"doc"` // loaders: YAML document
+	Lazy bool   `json:"lazy"` // closers: the closer is LazyInit
+	Dyn  bool   `json:"dyn"`  // ordered runners: Order() answers with a decoy (the negated value) until the last plain component has been initialised
 	Zero bool   `json:"zero"` // runners, closers: realised by a FIELD-LESS type (all zero-size objects share one address)
 }
 type AScenario struct {
@@ -191,7 +193,19 @@ func (x *rnU) Run() error {
 
 type rnO struct{ rnU }
 
-func (x *rnO) Order() int { return realOrd(x.p.Ord) }
+// dynReady: set by the Init of the LAST plain component (created after the App and after every runner): an Order() that
+// settles during start-up; the contract speaks about the values the runners have when they are sequenced
+var (
+	dynReady bool
+	dynLast  int
+)
+
+func (x *rnO) Order() int {
+	if x.p.Dyn && !dynReady {
+		return realOrd(-x.p.Ord)
+	}
+	return realOrd(x.p.Ord)
+}
 
 type rnP struct{ rnO }
 
@@ -270,6 +284,12 @@ func (*ppZ) PostProcessAfterInitialization(c any, name string) (any, error) {
 	return zpp.PostProcessAfterInitialization(c, name)
 }
 
+// a closer that is LazyInit: nobody but the App's own closer slice asks for it
+type closerL struct {
+	*closerC
+	definition.LazyInitComponent
+}
+
 // ---- closers of field-less types (three distinct zero-size types: all of their instances share one address); their scenario
 // data lives in package variables like the runners'
 var zcl [3]*closerC
@@ -308,6 +328,9 @@ type plainC struct {
 
 func (x *plainC) Naming() string { return x.name }
 func (x *plainC) Init() error {
+	if x.c == dynLast {
+		dynReady = true
+	}
 	x.l.emit("init", map[string]any{"c": x.c, "ok": !x.fail})
 	if x.fail {
 		return errors.New("injected init failure")
@@ -318,6 +341,7 @@ func (x *plainC) Init() error {
 func runAppScenario(sc *AScenario) []map[string]any {
 	l := &alog{}
 	rnd := rand.New(rand.NewSource(sc.Seed))
+	dynReady, dynLast = sc.Comps == 0, sc.Comps
 	var comps []any
 	var loaders []configure.Loader
 	zldUsed, zppUsed := false, false
@@ -388,6 +412,10 @@ func runAppScenario(sc *AScenario) []map[string]any {
 			zcl[nz] = closers[j]
 			comps = append(comps, []any{&clZA{}, &clZB{}, &clZC{}}[nz])
 			nz++
+			continue
+		}
+		if p.Lazy {
+			comps = append(comps, &closerL{closerC: closers[j]})
 			continue
 		}
 		comps = append(comps, closers[j])
